@@ -75,6 +75,13 @@ var alphabets = map[string][]Op{
 		{A: "swap", P: 1, D: 1, X: M, Dt: msec}, {A: "swap", P: 1, D: 0, X: L, Dt: 7 * sec, Ns: 100000},
 		{A: "toggle", Dt: sec}, {A: "prune", Dt: sec},
 	},
+	// liquidity operations on the classic pool between swaps and idle blocks: a single-asset join or exit moves the price
+	// without any swap message (amounts of the order of a large swap)
+	"lp": {
+		{A: "exit1", P: 0, D: 0, X: L, Dt: sec}, {A: "join1", P: 0, D: 1, X: L, Dt: 7 * sec, Ns: 300000},
+		{A: "exit", P: 0, X: 20000000, Dt: sec}, {A: "join", P: 0, X: 10000000, Dt: msec},
+		{A: "swap", P: 0, D: 0, X: M, Dt: sec}, {A: "idle", Dt: 7 * sec}, {A: "idle", Dt: msec},
+	},
 	// configurations whose pool 1 has three observed pairs: swaps along each of them (Q = index of the observed pair), in
 	// both directions, so that the three price series move at different times and by different amounts
 	"multi": {
@@ -173,6 +180,7 @@ func planTwoAsset(tier string) []run {
 			{"reversed", "pruning", "wide", 2}, {"reversed", "drained", "wide", 2},
 			{"sameblock", "genesis", "wide", 2}, {"sameblock", "genesis", "narrow", 3},
 			{"unit", "init", "narrow", 2}, {"unit", "aged", "narrow", 1},
+			{"moderate", "init", "lp", 4}, {"moderate", "aged", "lp", 3}, {"reversed", "init", "lp", 3},
 		}
 	}
 	return []run{
@@ -181,6 +189,7 @@ func planTwoAsset(tier string) []run {
 		{"reversed", "init", "narrow", 3}, {"reversed", "pruning", "narrow", 2},
 		{"sameblock", "genesis", "narrow", 2},
 		{"unit", "init", "narrow", 1},
+		{"moderate", "init", "lp", 3},
 	}
 }
 
